@@ -60,6 +60,7 @@ async def run_one(ctx, tree, n, plan, results, timeout=10.0):
         for e in hev:
             if e['e'] == 'HDone':
                 ev.append(e)
+        strays = [e for e in hev if e['e'] == 'HStray']
         for k, r in rs:
             t = seen.get(k)
             if r.status is None:
@@ -71,7 +72,7 @@ async def run_one(ctx, tree, n, plan, results, timeout=10.0):
             else:
                 kind, k2 = 'orig', ''
             ev.append({'e': 'Outcome', 'k': k, 'kind': kind, 'k2': k2})
-        results.append({'plan': plan, 'ev': ev, 'writes': [e['data'] for e in hev if e['e'] == 'HWrite'],
+        results.append({'plan': plan, 'ev': ev, 'strays': strays, 'writes': [e['data'] for e in hev if e['e'] == 'HWrite'],
                         'log': [l for l in sq.cache_log().splitlines() if 'helperHandleRead' in l][:3]})
     finally:
         await origin.stop()
@@ -128,9 +129,20 @@ def run(ctx):
         rnd.shuffle(order)
         cuts = [[rnd.choice(ks), rnd.randint(1, 6)] for _ in range(rnd.randint(1, 4))]
         plans.append({'batch': B, 'order': order, 'cuts': cuts, 'pause': 0.01, 'src': 'rnd'})
+    # (d) stray reply lines (duplicate of an already answered channel, channel ids nobody uses) in front of pending replies
+    for _ in range(24 if ctx.thorough else 8):
+        order = ks[:]
+        rnd.shuffle(order)
+        strays = []
+        for _ in range(rnd.randint(1, 3)):
+            pos = rnd.randint(1, B - 1)
+            what = rnd.choice(['dup:' + rnd.choice(order[:pos]), 'chan:%d' % rnd.choice([0, B, B + 1, 40, 49, 50, 1000])])
+            strays.append([order[pos], what])
+        cuts = [[rnd.choice(ks), rnd.randint(1, 6)] for _ in range(rnd.randint(0, 2))]
+        plans.append({'batch': B, 'order': order, 'cuts': cuts, 'strays': strays, 'pause': 0.01, 'src': 'stray'})
     uniq = {}
     for p in plans:
-        uniq.setdefault(json.dumps([p['order'], sorted(p['cuts'])]), p)
+        uniq.setdefault(json.dumps([p['order'], sorted(p['cuts']), p.get('strays', [])]), p)
     plans = list(uniq.values())
     if not ctx.thorough:
         sysp = [p for p in plans if p['src'] != 'tlc']
@@ -162,15 +174,16 @@ def run(ctx):
         r = results[i]
         bad = [e for e in r['ev'] if e['e'] == 'Outcome' and not (e['kind'] == 'rw' and e['k2'] == e['k'])]
         ctx.violation('helper reply did not reach the request that asked: %s; helper writes %s' % (json.dumps(bad[:3]), json.dumps(r['writes'][:4])),
-                      {'kind': 'helper', 'class': {'split_inside_channel_id': any(j <= 2 for _, j in r['plan']['cuts'])},
+                      {'kind': 'helper', 'class': {'split_inside_channel_id': any(j <= 2 for _, j in r['plan']['cuts']), 'stray_replies': bool(r.get('strays'))},
                        'plan': r['plan'], 'events': r['ev'], 'squid_log': r['log']})
     ctx.cov['impl_distinct'] = len(results)
     ctx.cov['requests_checked'] = sum(1 for r in results for e in r['ev'] if e['e'] == 'Outcome')
+    ctx.cov['stray_reply_lines'] = sum(len(r.get('strays', [])) for r in results)
     ctx.cov['fragments_written'] = sum(len(r['writes']) for r in results)
     for r in results[:2]:
         ctx.sample({'plan': r['plan'], 'writes': r['writes'][:5], 'outcomes': [e for e in r['ev'] if e['e'] == 'Outcome'][:4]})
     ctx.cov['rule'] = ('HelperImpl.tla (the parse loop of helperHandleRead over ids {1,2,12}, all reply orders and all fragmentations) is model-checked; its '
-                       'paths plus systematic cuts inside two-digit channel ids (prefix channel pending / already answered) plus seeded random plans are '
+                       'paths plus systematic cuts inside two-digit channel ids (prefix channel pending / already answered) plus seeded random plans plus plans with stray reply lines (duplicate channel ids, ids nobody uses) are '
                        'realised with a scripted url_rewrite helper on a fresh squid each (12 concurrent requests = channel ids 1..12); histories validated '
                        'by TLC against Helper.tla. Non-trivial = distinct (order, cuts).')
     ctx.assumptions += ['the helper separates fragments by 10-12 ms pauses; Squid may still coalesce two fragments into one read (then the scenario degenerates to an easier one)']
